@@ -44,8 +44,8 @@ func (r *Rand) Intn(n int) int {
 	}
 	return int(r.U64() % uint64(n))
 }
-func (r *Rand) Bool() bool          { return r.U64()&1 == 1 }
-func (r *Rand) Chance(p int) bool   { return r.Intn(100) < p } // p percent
+func (r *Rand) Bool() bool           { return r.U64()&1 == 1 }
+func (r *Rand) Chance(p int) bool    { return r.Intn(100) < p } // p percent
 func Pick[T any](r *Rand, xs ...T) T { return xs[r.Intn(len(xs))] }
 
 // ---------------------------------------------------------------- line protocol
